@@ -109,9 +109,9 @@ prop("C15",
      note="NOT PROVED: mul, mul_parts, normalize, symb_evaluate, prod_of (and the like-terms-collected precondition of inc_of / prod_inc_of as an invariant of every constructor) -- closures with captured mutation, iterator adapters and HashMap code that Verus rejects and Kani does not finish; they are covered by a BOUNDED STAND-IN (unit n3_expr_ops: native enumeration of a ~300-member expression family over two variables, plus ~2400 same-support sums for the unary operations, against the proved evaluate; counted separately, never as proved; it also re-checks the proved operations on expressions produced by mul). split_along: only through its use in loop_motion (unit n4, C14). NOT decided at all: codegen. SmallVec is replaced by a Verus-checked Vec wrapper in the verification file (that it refines Vec is C18); slice Ord is assumed to satisfy Equal => equal sequences.")
 
 prop("C03",
-     units=[("kani", "u6_jit", None)],
+     units=[("kani", "u6_jit", None), ("native", "n2_bc_passes", None)],
      level="model_checking",
      technique="per-instruction contract of the real JIT selector/encoder: the bytes the real emit_program produces for a concrete bytecode instruction are run under an x86-64 subset semantics by Kani over ALL machine states and compared with the bytecode step semantics; operands enumerated",
      design_ref="DESIGN.md section 4-U6, 5-C03",
      text="Selector/encoder layer: for every enumerated instruction instance (every arm of the selector's match x register class incl. stack temporaries x immediate class incl. 64-bit immediates x displacement class x live mask x width) the emitted machine code computes the bytecode step for all register/stack/tape/context contents, preserves live temporaries and touches no byte outside the destination; branches, the budget check and the unchecked move likewise.",
-     note="Trusted: the x86-64 subset semantics (decoder run natively, executor in Kani), the register map. Quick tier: the bytes come from a native run of the real emitter; thorough tier additionally proves in Kani that emit_program emits exactly them. Inp/Out call sequences are decided under the SysV call contract (caller-saved registers havoc). The x86 specification is conformance-checked against the CPU on every run (each arithmetic instance executed as real machine code). Also decided: the checked Mov probe/extend/re-base sequence, prologue + epilogue (both exits). NOT decided: mmap/munmap/transmute in enter_jit_code, the shared front end (C01, bc.rs).")
+     note="Trusted: the x86-64 subset semantics (decoder run natively, executor in Kani), the register map. Quick tier: the bytes come from a native run of the real emitter; thorough tier additionally proves in Kani that emit_program emits exactly them. Inp/Out call sequences are decided under the SysV call contract (caller-saved registers havoc). The x86 specification is conformance-checked against the CPU on every run (each arithmetic instance executed as real machine code). Also decided: the checked Mov probe/extend/re-base sequence, prologue + epilogue (both exits). The bytecode generator the JIT shares with the interpreter (bc::CodeGen::translate with 11 registers, no fusion) is covered ONLY by a BOUNDED STAND-IN (unit n2_bc_passes: semantics, operand window, temporaries, definite assignment and the `live` bitmaps the JIT saves registers by, on a fixed pseudo-random sample of IR programs; counted separately, never as proved). NOT decided: mmap/munmap/transmute in enter_jit_code, the optimiser (C01).")
